@@ -376,6 +376,38 @@ def check(pm: ProgramModel, ctx: Ctx) -> None:
             except (AbsRaise, AbsMutation) as exc:
                 ctx.info("C04-DENOTES", "same-reader-object:file-replaced", where,
                          f"a reader object asked to transform() a second time declines: {exc.what}")
+        # a document read, the caller edits a vector value of the model in place, the document read again by a new reader:
+        # what the second reading returns is the document's (a table of values handed out as they are stored would not be)
+        def vectors() -> AObj:
+            r_ = mb.feature("R")
+            a_, b_ = mb.feature("A"), mb.feature("B")
+            mb.relation(r_, [a_], 1, 1)
+            mb.relation(r_, [b_], 0, 1)
+            a_._f["attributes"].append(mb.attribute("levels", [1, 2, 3], a_))
+            b_._f["attributes"].append(mb.attribute("steps", [1, 2, 3], b_))
+            b_._f["attributes"].append(mb.attribute("box", {"k": [1, 2, 3], "s": "x"}, b_))
+            return mb.model(r_, [])
+        vref = vectors()
+        vfs = VFS()
+        vfs.files[PATH] = RefEmitter().emit(vref)
+        r1_ = run_reader(pm, "UVLReader", vfs, setup=install_antlr)
+        if r1_["model"] is not None and not diff(describe(vref), describe(r1_["model"]), ctc_names=False):
+            from ..roundtrip import features as _feats
+            for f_ in _feats(r1_["model"]):
+                for at_ in f_._f.get("attributes", []):
+                    v_ = at_._f.get("default_value")
+                    if isinstance(v_, list):
+                        v_.append(99)
+                    elif isinstance(v_, dict):
+                        for x_ in v_.values():
+                            if isinstance(x_, list):
+                                x_.clear()
+            r2_ = run_reader(pm, "UVLReader", vfs, setup=install_antlr)
+            ds = diff(describe(vref), describe(r2_["model"]), ctc_names=False) if r2_["model"] is not None else [("raise", str(r2_["raise"]))]
+            ctx.check(not ds, "C04-DENOTES", "read-edit-vector-read", where,
+                      "a document read again after the caller edited a vector value of the first result denotes the same values",
+                      bad=f"after the caller edited a vector value of the model read first, the same document is read with "
+                          f"other values: {ds[0][1] if ds else ''}")
         # negatives -------------------------------------------------------------------------------
         for key, text in NEGATIVES.items():
             vfs = VFS()
